@@ -42,6 +42,9 @@ def gen_pair(rng, seed, long=False):
     def build(with_eph):
         p = Pipe()
         p.source('src', {'nframes': N, 'proc_ms': [period], 'topics': topics, 'content': ['data'], 'end': 'idle'}, nout=nout if bal else 1, balance=bal)
+        if join_ahead and not bal:
+            p.source('osrc', {'nframes': 10 ** 7, 'proc_ms': [10], 'topics': ['o'], 'content': ['data']})
+            p.sink('oz', [{'pub': 'osrc', 'form': 'all'}], {'proc_ms': [0]})      # keeps osrc running (its ids are far ahead when the join comes up)
         if bal:
             # load-balanced publisher: synchronized consumers spread over its outputs, '?'/'??' listeners on output 0
             for i in range(nsync):
@@ -57,11 +60,18 @@ def gen_pair(rng, seed, long=False):
             p.relay('eb', [{'pub': 'src', 'form': 'main', 'eph': 1}], {'proc_ms': [eb_ms]})
         for i in range(nsync):
             ins_ = [{'pub': 'src', 'form': sync_forms[i]}]
+            if self_eph and i == 0:
+                # k0 is attached to the SAME publisher twice: synchronized for 'main', and (only in the run with ephemerals)
+                # ephemeral '?' for another topic, listed after the synchronized source
+                ins_ = [{'pub': 'src', 'form': [('main', 'main')]}] + ([{'pub': 'src', 'form': [(topics[-1], 'side_e')], 'eph': 1}] if with_eph else [])
+            if join_ahead and i == 0:
+                # k0 joins src with an independent source that has been running for a while: its requests ask src to skip ahead
+                ins_ = ins_ + [{'pub': 'osrc', 'form': [('o', 'o')]}]
             if with_eph and rejoin and i == 0:
                 eb_in = {'pub': 'eb', 'form': [('main', 'from_eb')], 'eph': 1}
                 ins_ = [eb_in] + ins_ if eph_first else ins_ + [eb_in]      # the ephemeral source may be listed before the synchronized one
             p.sink(f'k{i}', ins_, {'proc_ms': [sync_ms[i]]})
-        if with_eph and ahead is not None:
+        if with_eph and ahead is not None and not join_ahead:
             # an ephemeral listener that is itself a joiner: its other, synchronized source has been running for a while,
             # so the ids in its requests are AHEAD of this publisher's
             p.source('osrc', {'nframes': 10 ** 7, 'proc_ms': [10], 'topics': ['o'], 'content': ['data']})
@@ -103,37 +113,85 @@ def gen_pair(rng, seed, long=False):
     ahead = rng.randrange(len(ephs)) if rng.random() < 0.3 and not bal and ephs[0][0] else None
     if ahead is not None and ephs[ahead][0] != 1:
         ahead = None            # only a '?' listener sends requests
+    r_ = rng.random()
+    self_eph = r_ < 0.12 and not bal and not rejoin and ahead is None and len(topics) > 1
+    join_ahead = 0.12 <= r_ < 0.24 and not bal and not rejoin and ahead is None
     if long:
         period, sync_ms, bal, rejoin, eph_first, ahead = 0, [rng.choice([30, 50]), 0, 0], False, True, rng.random() < 0.85, None
+        join_ahead = False
+        self_eph = rng.random() < 0.4          # instead of the ephemeral branch: k0 itself listens to another topic of src with '?'
+        if self_eph:
+            rejoin = False
+            N = rng.randint(520, 560)          # k0 takes 2 of the 4 topics: more frames needed to outrun the transport's buffers
         sync_forms = ['all', 'all', 'all']
-        if rng.random() < 0.5:
+        if rng.random() < 0.5 and not self_eph:
             sync_ms[0], sync_ms[1] = sync_ms[1], sync_ms[0]      # the joiner is the fast one
     kinds = []
     starts = {f'k{i}': rng.choice([0, 0, 100]) for i in range(3)}
-    starts.update({'src': rng.choice([0, 50]) if ahead is None else 2500, 'eb': rng.choice([0, 200]), 'osrc': 0})
-    if ahead is not None:
+    starts.update({'src': rng.choice([0, 50]) if ahead is None and not join_ahead else 2500, 'eb': rng.choice([0, 200]), 'osrc': 0, 'oz': 0})
+    if ahead is not None or join_ahead:
         for i in range(3):
             starts[f'k{i}'] = 2500 + starts[f'k{i}']
     for j in range(len(ephs)):
         starts[f'e{j}'] = rng.choice([0, 0, 300, 900])
-    link = {'max_delay_ms': rng.choice([0, 10, 50, 90]), 'conn_ms': [0, 30], 'sub_ms': [0, 20], 'const': True}
+        if join_ahead:
+            starts[f'e{j}'] = 2500 + rng.choice([0, 20, 50, 100, 150, 600])       # the listeners attach about when the joiner does: one of them may be the publisher's newest client when the joiner first asks it to skip ahead
+    link = {'max_delay_ms': rng.choice([0, 10, 50, 90]), 'conn_ms': [0, 30] if not join_ahead else [0, rng.choice([30, 400, 800])], 'sub_ms': [0, 20], 'const': True}     # join_ahead: connections may come up hundreds of ms apart
     faults = []
     for j, (lvl, beh, form) in enumerate(ephs):
         if beh['proc_ms'] == [2001]:
             faults.append({'at_ms': rng.randint(400, 2500), 'kind': 'kill', 'node': f'e{j}'})
         elif beh['proc_ms'] == [2002]:
             faults.append({'at_ms': rng.randint(400, 2500), 'kind': 'kill_restart', 'node': f'e{j}', 'delay_ms': rng.choice([0, 500, 6000])})
+    base_faults = []
+    if join_ahead and rng.random() < 0.5:
+        # ... and src is restarted in mid-run (in both runs): its new incarnation counts from 0 again and has to be told by its joiner
+        # to skip ahead - while the listeners are (re)attaching, so that one of them may well be the publisher's newest client
+        base_faults = [{'at_ms': 2500 + rng.randint(800, 1500), 'kind': rng.choice(['kill_restart', 'clean_restart']), 'node': 'src', 'delay_ms': rng.choice([0, 300])}]
+        faults = faults + base_faults
     expect = {f'k{i}': N for i in range(nsync)}
     split = bal and nout == 2
-    if split:
-        expect = None           # how the frames are split over the branches is the balancer's business
-    until = 25000 if split else 200000
-    base = scenarios.finish(build(False), seed, link, until, family='eph-pair', stop_counts=expect, grace_ms=500, split=split, stop_when_all_done=False)
-    with_e = scenarios.finish(build(True), seed, link, until, family='eph-pair', stop_counts=expect, grace_ms=500, faults=faults, split=split, stop_when_all_done=False,
+    if split or join_ahead:
+        expect = None           # how the frames are split over the branches is the balancer's business / how many frames src drops while skipping ahead is timing
+    until = 25000 if split or join_ahead else 200000
+    base = scenarios.finish(build(False), seed, link, until, family='eph-pair', stop_counts=expect, grace_ms=500, split=split, join_ahead=join_ahead, self_eph=self_eph, stop_when_all_done=False, faults=base_faults)
+    with_e = scenarios.finish(build(True), seed, link, until, family='eph-pair', stop_counts=expect, grace_ms=500, faults=faults, split=split, join_ahead=join_ahead, self_eph=self_eph, stop_when_all_done=False,
                               loss={'p': rng.choice([0.0, 0.1, 0.3]), 'links': [['src', f'e{j}'] for j in range(len(ephs))] + [['src', 'eb']]} if rng.random() < 0.5 else None)
     if with_e['loss'] is None:
         del with_e['loss']
     return base, with_e, nsync
+
+
+def gen_raw_join(rng, seed, with_listener):
+    """ZMQ-API level twin run: F joins two independent publishers, P2 (ids from 0) and P1 (ids far ahead, comes up later), so
+    F - by then an established client of P2 - has to ask P2 to skip ahead; a '?' listener L attaches to P2 in between."""
+    P2 = {'id': 'P2', 'role': 'raw_pub', 'config': {'outputs': ['ipc://P2']}, 'start_ms': 0, 'raw': {'n': 10 ** 7, 'period_ms': rng.choice([5, 10]), 'send_timeout_ms': rng.choice([None, 100]), 'topic': 'm2'}}
+    P1 = {'id': 'P1', 'role': 'raw_pub', 'config': {'outputs': ['ipc://P1']}, 'start_ms': rng.choice([1200, 1500, 2000]),
+          'raw': {'n': 10 ** 7, 'period_ms': rng.choice([5, 10]), 'send_timeout_ms': rng.choice([None, 100]), 'first_id': rng.choice([50, 300, 1000]), 'topic': 'm1'}}
+    F = {'id': 'F', 'role': 'raw_sub', 'config': {'sources': ['ipc://P2', 'ipc://P1'] if rng.random() < 0.5 else ['ipc://P1', 'ipc://P2']}, 'start_ms': rng.choice([0, 50]), 'raw': {'proc_ms': rng.choice([5, 10])}}
+    nodes = [P2, P1, F]
+    if with_listener:
+        nodes.append({'id': 'L', 'role': 'raw_sub', 'config': {'sources': ['ipc://P2?']}, 'start_ms': rng.choice([300, 600, 900]), 'raw': {'proc_ms': rng.choice([0, 5, 200])}})
+    return {'seed': seed, 'link': {'max_delay_ms': rng.choice([0, 10, 50]), 'conn_ms': [0, 30], 'sub_ms': [0, 20], 'const': True}, 'until_ms': 6000,
+            'nodes': nodes, 'topo': {'edges': []}, 'family': 'raw-join', 'stop_when_all_done': False}
+
+
+def run_raw_join(ctx_rng, res):
+    seed = ctx_rng.randrange(1 << 30)
+    st = ctx_rng.getstate()
+    s0 = gen_raw_join(ctx_rng, seed, False)
+    ctx_rng.setstate(st)
+    s1 = gen_raw_join(ctx_rng, seed, True)
+    w0, w1 = world.run_scenario(s0), world.run_scenario(s1)
+    res.evaluations += 1
+    n0 = len([1 for e in w0.clog if e['ev'] == 'process' and e['node'] == 'F' and len(e['ins']) >= 1])
+    n1 = len([1 for e in w1.clog if e['ev'] == 'process' and e['node'] == 'F' and len(e['ins']) >= 1])
+    res.count('raw_join_pairs')
+    res.count('raw_join_sets_without_listener', n0)
+    if n0 >= 10 and n1 < 0.25 * n0:
+        res.violation('sync-consumer-starved-by-ephemeral-listener', f"F (ZMQReceiver joining P2 with P1 whose ids are {s0['nodes'][1]['raw']['first_id']} ahead) received {n1} joined sets with a '?' listener on P2, {n0} without; seed={seed}", {'raw_join': [s0, s1]})
+    elif n0 >= 10:
+        res.nontrivial(f'raw-join|{w1.schedule_signature()}')
 
 
 def gen_eph_safety(rng, seed):
@@ -265,6 +323,18 @@ def judge_pair(w0, w1, s0, s1, nsync, res):
             if shares_output_with_ephemerals and len(h1) < 0.25 * len(h0) - 2:
                 bad.append(('balanced-branch-starved-by-ephemeral', f'k{i} received {len(h1)} frames with an ephemeral listener on the balanced publisher, {len(h0)} without'))
             continue
+        if s1.get('join_ahead'):
+            # how many frames src discards while it skips ahead to the id its joiner asks for depends on when the requests arrive;
+            # what must not happen is that the joiner is starved because of a listener
+            res.count('join_ahead_pairs')
+            def after_restart(w_):
+                t_r = max((e_['t'] for e_ in w_.clog if e_['ev'] == 'fault'), default=0)
+                return len([1 for e_ in w_.clog if e_['ev'] == 'process' and e_['node'] == f'k{i}' and e_['ins'] and e_['t'] > t_r + 500_000_000])
+            a0, a1 = after_restart(w0), after_restart(w1)
+            res.count('join_ahead_sets_after_restart_without_listeners', a0)
+            if (len(h0) >= 5 and len(h1) < 0.25 * len(h0)) or (a0 >= 5 and a1 < 0.25 * a0):
+                bad.append(('sync-consumer-starved-by-ephemeral-listener', f'k{i} ({"joining src with a source that is ahead" if i == 0 else "synchronized consumer of src"}) received {len(h1)} sets ({a1} after the restart of src) with ephemeral listeners on src, {len(h0)} ({a0}) without'))
+            continue
         if h0 != h1:
             j = next((j for j, (a, b) in enumerate(zip(h0, h1)) if a != b), min(len(h0), len(h1)))
             bad.append(('sync-stream-altered', f'k{i}: with ephemeral listeners attached input #{j} is {h1[j] if j < len(h1) else None}, without them {h0[j] if j < len(h0) else None} ({len(h1)} vs {len(h0)} inputs)'))
@@ -360,6 +430,12 @@ def run_shard(ctx):
                 res.count('long_pairs')
             except Exception as e:
                 res.inconclusive.append(f'long scenario crashed the harness: {type(e).__name__}: {e}')
+        if k % 4 == 1:
+            try:
+                run_raw_join(ctx.rng('rawjoin', k), res)
+            except Exception as e:
+                import traceback
+                res.inconclusive.append(f'raw join scenario crashed the harness: {type(e).__name__}: {e} {traceback.format_exc()[-300:]}')
         if k % 2 == 0:
             scn = gen_eph_safety(rng, rng.randrange(1 << 30))
             try:
@@ -393,6 +469,12 @@ def conclusive(agg, tier):
 def replay(spec):
     common.quiet_logging()
     res = common.Result()
+    if 'raw_join' in spec:
+        s0, s1 = spec['raw_join']
+        w0, w1 = world.run_scenario(s0), world.run_scenario(s1)
+        n0, n1 = [len([1 for e in w_.clog if e['ev'] == 'process' and e['node'] == 'F']) for w_ in (w0, w1)]
+        print('joined sets without listener', n0, 'with', n1)
+        return 1 if n0 >= 10 and n1 < 0.25 * n0 else 0
     if 'safety' in spec:
         w = world.run_scenario(spec['safety'])
         bad = judge_safety(w, spec['safety'], res)
